@@ -115,6 +115,21 @@ add("C05", True, "exploration",
     "are small integers.",
     "DESIGN.md section 5, C05")
 
+add("C02", True, "exploration",
+    "Hypothesis-generated placement problems per placer configuration, "
+    "oracle = feasibility predicate; completeness on the property's premise",
+    "For each of the seven placer configurations (SA with Python and C "
+    "kernel, Hilbert, RCM, breadth-first, sequential with custom orders, "
+    "random) generated problems with dead chips, resource exceptions, "
+    "chained/duplicated same-chip groups, location constraints and "
+    "reservations are placed; a returned placement must be feasible and "
+    "honour every constraint, the only exceptions allowed are the two "
+    "documented ones; inside the property's premise every placer must "
+    "succeed.",
+    "Trusted: the feasibility predicate in vf/gen/problems.py, rig_c_sa. "
+    "Termination is only watched by a 120 s alarm (inconclusive, exit 2).",
+    "DESIGN.md section 5, C02")
+
 
 def main():
     checks = []
